@@ -138,13 +138,13 @@ def WithinW : List Entry → List (Int × Int) → Prop
 
 theorem within2_withinW : ∀ (xs ys : List Entry), Within2 xs ys → WithinW xs (ys.map winE)
   | [], [], _ => True.intro
-  | x :: xs, y :: ys, h => ⟨h.1, h.2.1, within2_withinW xs ys h.2.2⟩
+  | _ :: xs, _ :: ys, h => ⟨h.1, h.2.1, within2_withinW xs ys h.2.2⟩
   | [], _ :: _, h => False.elim h
   | _ :: _, [], h => False.elim h
 
 theorem withinW_length : ∀ (xs : List Entry) (ws : List (Int × Int)), WithinW xs ws → xs.length = ws.length
   | [], [], _ => rfl
-  | x :: xs, w :: ws, h => by simp [withinW_length xs ws h.2.2]
+  | _ :: xs, _ :: ws, h => by simp [withinW_length xs ws h.2.2]
   | [], _ :: _, h => False.elim h
   | _ :: _, [], h => False.elim h
 
